@@ -28,10 +28,73 @@ def seq(prop, **kw):
     return d
 
 
+CONC_RULE = ("one run = a seeded prefix history, then 1-2 rounds of 2-4 transactions started concurrently from arbitrary "
+             "recent read versions by parties with own sessions; every storage call parks at the gate and a seeded "
+             "scheduler releases one at a time; distinct = distinct decision sequences (actor, call kind, path class, "
+             "fault); non-trivial = >= 2 parties had calls parked at the same decision point or a fault fired")
+CRASH_RULE = ("one run = a seeded prefix history + one operation X; X is run fault-free to learn its storage calls, then "
+              "re-run from a disk snapshot once per (call index, fault in {crash-before, crash-after, error}); each "
+              "re-run is a sub-case checked by a fresh party; distinct = distinct (prefix kinds, X kind, call count); "
+              "non-trivial = at least one sub-case")
+E2_RULE = ("one run = 2-3 writers x 1-3 commit attempts + 1-2 readers calling the real CommitHandler methods on tiny "
+           "manifests with unique markers, under the seeded scheduler (reorder, stall) and 0-3 faults; distinct = "
+           "distinct decision sequences; non-trivial = parties overlapped at the gate or a fault fired")
+
+LEVEL_NOTE = ("Sampling, not proof: a clean batch is evidence. Trusted base: the simulated object store's fidelity "
+              "(DESIGN 2.8), the reference model (DESIGN 3), tokio's current-thread executor, the LD_PRELOAD shim. "
+              "Real lance code runs above the object_store trait; local-filesystem and cloud-provider paths are not exercised.")
+
+
+def e1(mode, weight=1, **opts):
+    o = [("mode", mode)] + sorted(opts.items())
+    return {"engine": "e1", "opts": o, "weight": weight}
+
+
+def e2(weight=1, **opts):
+    return {"engine": "e2", "opts": sorted(opts.items()), "weight": weight}
+
+
+def chk(batches, rule, text, **kw):
+    d = {"batches": batches, "rule": rule, "level_text": text, "level_note": LEVEL_NOTE}
+    d.update(kw)
+    return d
+
+
 CHECKS = {
-    "C11": {"batches": [seq("C11")], "rule": SEQ_RULE},
-    "C12": {"batches": [seq("C12")], "rule": SEQ_RULE},
-    "C05": {"batches": [seq("C05")], "rule": SEQ_RULE},
+    "C01": chk([e1("crash", 3), e1("crash", 1, amb=1), e1("seq", 1)], CRASH_RULE,
+               "Seeded search over histories; inside each sampled (history, operation) the crash/error point is swept over "
+               "every storage call of the operation (exhaustive per case); oracle: a fresh party sees exactly the old "
+               "versions or the complete new one, versions dense, table writable. Separate batch with lost/duplicated "
+               "responses on the publishing call.",
+               required_probes=["x-calls"]),
+    "C02": chk([e2(3), e2(1, amb=1), e1("conc", 1)], E2_RULE,
+               "Seeded search over interleavings of writers/readers on each atomic commit handler with injected errors, "
+               "crashes, lost and duplicated responses; disk-level immutability monitor + single-winner + same-content oracles.",
+               required_probes=["overlapped"]),
+    "C03": chk([e1("conc", 3), e1("conc", 1, faults=1)], CONC_RULE,
+               "Seeded search over commit orders of concurrently started transactions; oracle: serial replay of the committed "
+               "transactions' row-level effects (computed at some read version between start and commit) equals every new version.",
+               required_probes=["overlapped", "txn-committed", "rebased-over-concurrent-commit"]),
+    "C04": chk([e1("conc", 1)], CONC_RULE,
+               "As C03 with a delete/update/merge_insert mix over overlapping rows; oracle: no row image modified by two committed transactions, no resurrected row.",
+               required_probes=["overlapped", "txn-committed"]),
+    "C05": chk([e1("seq", 1)], SEQ_RULE, "Seeded histories; Dataset::validate plus manifest invariants after every commit."),
+    "C06": chk([e1("seq", 1)], SEQ_RULE, "Seeded histories; every old version re-read by a fresh party after later steps must equal its snapshot; disk-level monitor that no referenced object changes bytes."),
+    "C07": chk([e1("seq", 1)], SEQ_RULE, "Seeded histories with restores; restored version equals the model of the old version; row ids never re-issued."),
+    "C10": chk([e2(3, handler="external"), e2(1, handler="external", amb=1), e1("crash", 1, handler="external")], E2_RULE,
+               "Seeded interleavings of two-three writers and readers through stage/put_if_not_exists/copy/put_if_exists/delete with "
+               "crashes and errors at every step and stale external reads; all resolvers of a version read the same bytes; "
+               "committed versions are repaired to the standard path by later readers.",
+               required_probes=["overlapped"]),
+    "C11": chk([e1("seq", 1)], SEQ_RULE, "Seeded create/append/overwrite histories under random file/group limits, storage versions and store knobs; ordered scan equals the model."),
+    "C12": chk([e1("seq", 1)], SEQ_RULE, "Seeded histories of delete/update/merge_insert with random predicates and sources; scan and counts equal the model's SQL semantics; must-fail operations leave no effect."),
+    "C13": chk([e1("seq", 1)], SEQ_RULE, "Seeded histories with compaction under random options; contents, row ids and indexed query results unchanged."),
+    "C14": chk([e1("seq", 1)], SEQ_RULE, "Seeded add/alter/drop column sequences interleaved with writes; untouched columns and order preserved, added values as requested."),
+    "C19": chk([e1("seq", 1)], SEQ_RULE, "Seeded histories that grow/delete/update/compact/optimize exact scalar indices; every random predicate returns the same rows with and without the index."),
+    "C20": chk([e1("seq", 1)], SEQ_RULE, "As C19 for zone-map, bloom-filter and n-gram indices with random parameters."),
+    "C24": chk([e1("conc", 1, stable=0)], CONC_RULE, "Index creation/optimisation racing with column rewrites and compaction in all commit orders; indexed = unindexed query results afterwards.",
+               required_probes=["overlapped", "txn-committed"]),
+    "C33": chk([e2(1)], E2_RULE, "Partial claim: latest-version discovery under arbitrary listing order and staging files, via the commit-protocol races (fresh reader resolves the highest committed version)."),
 }
 
 # properties whose checks are registered in MANIFEST.json (clean on the unchanged tree)
